@@ -70,6 +70,27 @@ pub fn run(ctx: &Ctx) -> Outcome {
         out.violations.extend(findings_to_violations(&scn, &r.findings, &judge));
         out.parts.push(p);
     }
+    // the same when the application just drops both halves after writing (no flush, no shutdown)
+    for bh in [None, Some(600usize)] {
+        let mut scn = lib::mtu_drop_close(700, bh, 6_000);
+        scn.a.inactivity_ms = 30_000;
+        scn.b.inactivity_ms = 30_000;
+        scn.horizon_s = 20;
+        let cfg = ExploreCfg { max_dev: 1, min_k: 2, fates: vec![crate::duo::sim::Fate::Drop], eligible: &always, judge: &judge, max_runs: ctx.tier.pick(5_000, 100_000) };
+        let r = explore(ctx, &scn, &cfg);
+        let mut p = Part::fe(&format!("duo:{}", scn.name));
+        p.evaluations = r.runs;
+        p.distinct_nontrivial = r.distinct_traces;
+        p.distinct_outcomes = r.outcome_classes.len() as u64;
+        p.bound = format!("6 kB over a probing path, halves dropped right after the write, all plans with <= {} dropped datagram; per level {:?}", r.completed_bound, r.per_level);
+        if let Some(c) = &r.capped {
+            p.caps_hit.push(c.clone());
+            p.exhaustive = false;
+        }
+        p.samples.push(json!({"scenario": scn.name, "plan": []}));
+        out.violations.extend(findings_to_violations(&scn, &r.findings, &judge));
+        out.parts.push(p);
+    }
     // clause 3: wake-ups / immediacy / no deadlock, in every state of the flow and close drivers (solo)
     {
         use super::solo_drivers::*;
